@@ -33,6 +33,7 @@ func runC09(c *core.Ctx) {
 	ruleNoArgMutation(c, "C09-R9")    // encrypting a string must not corrupt the value for its next use
 	ruleInStreamGuards(c, "C09-R10")  // strings are encrypted under the key of the object they belong to
 	ruleUserKeyComparison(c, "C09-R12")
+	ruleWriterSideDefaults(c, "C09-R13")
 	ruleCryptoConstants(c, "C09-R11") // the standard's algorithms: a conforming file's correct password must be accepted
 }
 
@@ -1005,5 +1006,132 @@ func ruleStringEncryptionUnconditional(c *core.Ctx, rule string) {
 			}
 		}
 		o.Require(used, "the ciphertext does not replace the plaintext before writing")
+	})
+}
+
+// ruleWriterSideDefaults (C09-R13): (a) an empty owner password means "same
+// as the user password" for every revision: the substitution is made before
+// any use of the owner password, not only on the branch of one revision
+// (otherwise a PDF 2.0 file written with a user password only can be opened
+// with the empty password, as owner).  (b) The reader assumes
+// /EncryptMetadata true when the entry is absent, and the key derivation of
+// revision 4 depends on it: the writer emits /EncryptMetadata false whenever
+// metadata is left unencrypted, for every revision that has the notion
+// (R >= 4), not only next to /Perms.
+func ruleWriterSideDefaults(c *core.Ctx, rule string) {
+	c.Check(rule, "pdf.createStdSecHandler/owner-fallback", "every use of the owner password is dominated by the substitution of the user password for an empty owner password", func(o *core.Ob) {
+		fn := c.Prog.Func("pdf", "createStdSecHandler")
+		g := fn.Graph()
+		info := fn.Info()
+		owner := paramObj(fn, "ownerPwd")
+		user := paramObj(fn, "userPwd")
+		var subst *core.V
+		for _, dv := range defVertices(g, owner) {
+			if as, ok := dv.AST.(*ast.AssignStmt); ok && len(as.Rhs) == 1 && core.ObjOf(info, as.Rhs[0]) == user {
+				subst = dv
+				o.At(fn.Site(as, "empty owner password replaced"))
+			}
+		}
+		if subst == nil {
+			o.Count(1)
+			o.Fail("createStdSecHandler never substitutes the user password for an empty owner password")
+			return
+		}
+		// the test in front of the substitution
+		var test *core.V
+		for _, bv := range g.BranchVertices() {
+			if bv.Cond.Expr != nil && condMentions(g, bv, owner) && g.EdgeDominates(subst, core.EdgeRef{From: bv, Label: core.EdgeTrue}) {
+				test = bv
+			}
+		}
+		if test == nil {
+			core.Undecided("test for the empty owner password not found")
+		}
+		n := 0
+		for _, v := range g.Vs {
+			if v.AST == nil || v == subst || v == test {
+				continue
+			}
+			uses := false
+			for _, cs := range core.CallsIn(info, v.AST, false) {
+				for _, a := range cs.Call.Args {
+					if core.ObjOf(info, a) == owner {
+						uses = true
+					}
+				}
+			}
+			if !uses {
+				continue
+			}
+			n++
+			o.Count(1)
+			if !g.Dominates(test, v) {
+				o.FailAt(fn.Site(v.AST, ""), "%s: the owner password is used on a path that has not passed the empty-owner-password substitution: with an empty owner password the owner entries are computed from the empty string and the file opens without any password", c.Prog.Pos(v.AST.Pos()))
+			}
+		}
+		o.Require(n >= 2, "uses of the owner password not found")
+	})
+	c.Check(rule, "pdf.(*encryptInfo).AsDict/EncryptMetadata", "/EncryptMetadata false is written whenever metadata is left unencrypted, for revision 4 as well as 6", func(o *core.Ob) {
+		fn := c.Prog.Func("pdf", "(*encryptInfo).AsDict")
+		g := fn.Graph()
+		info := fn.Info()
+		var stores []*core.V
+		for _, v := range g.Vs {
+			if as, ok := v.AST.(*ast.AssignStmt); ok {
+				for _, l := range as.Lhs {
+					if _, key, ok := core.MapIndexKey(info, l); ok && key == "EncryptMetadata" {
+						stores = append(stores, v)
+					}
+				}
+			}
+		}
+		if len(stores) == 0 {
+			o.Count(1)
+			o.Fail("AsDict never writes /EncryptMetadata")
+			return
+		}
+		var flag, rSel ast.Expr
+		ast.Inspect(fn.Decl.Body, func(m ast.Node) bool {
+			if sel, ok := m.(*ast.SelectorExpr); ok {
+				if sel.Sel.Name == "unencryptedMetadata" && flag == nil {
+					flag = sel
+				}
+				if sel.Sel.Name == "R" && rSel == nil {
+					if _, isSel := ast.Unparen(sel.X).(*ast.Ident); isSel {
+						rSel = sel
+					}
+				}
+			}
+			return true
+		})
+		if flag == nil || rSel == nil {
+			core.Undecided("AsDict does not look at unencryptedMetadata / R")
+		}
+		need := core.Formula{Fn: fn, Atoms: []core.Atom{{Expr: flag}, {Expr: &ast.BinaryExpr{X: rSel, Op: token.GEQ, Y: intLit(4)}}, {Expr: &ast.BinaryExpr{X: rSel, Op: token.LEQ, Y: intLit(6)}}}}
+		okAny := false
+		var why []string
+		for _, st := range stores {
+			o.Count(1)
+			o.At(fn.Site(st.AST, "/EncryptMetadata written"))
+			var atoms []core.Atom
+			for _, a := range g.DominatingAtoms(st) {
+				s := c.Prog.Src(a.Expr)
+				if strings.Contains(s, "unencryptedMetadata") || strings.Contains(s, ".R") {
+					atoms = append(atoms, a)
+				}
+			}
+			holds, counter, decided := c.Prog.Implies(need, core.Formula{Fn: fn, Atoms: atoms})
+			if !decided {
+				core.Undecided("condition of the store not decided: %s", counter)
+			}
+			if holds {
+				okAny = true
+			} else {
+				why = append(why, c.Prog.Pos(st.AST.Pos())+": written only under "+c.Prog.FormulaString(core.Formula{Atoms: atoms})+" (not for "+counter+")")
+			}
+		}
+		if !okAny {
+			o.Fail("/EncryptMetadata false is not written for every revision >= 4 with unencrypted metadata: %s; the reader then derives a different file key and rejects both passwords", strings.Join(why, "; "))
+		}
 	})
 }
